@@ -332,14 +332,19 @@ Example C01_expr_nonvacuous :
 Proof. repeat split; vm_compute; reflexivity. Qed.
 
 (* Statements.  For every fuel and every block of the scalar statement fragment (block_ok: scalar declarations and
-   assignments with implicit numeric conversion, Wenn, Solange, Mache..Solange, Wiederhole, break/continue, blocks,
-   expression statements, Schreibe of scalars): whenever RefSem ends (normally or with a Laufzeitfehler) within the
-   fuel, the compiled block run with the same fuel ends the same way with the same output bytes.
-   NOT covered (the full `program_preservation : wt p -> run (compile p) = exec p` stays open): counting loops and
-   for-each inside this simulation (missing lemma: composing ForLoop.for_lowering_correct /
-   Control.foreach_lowering_correct with the store relation - their hidden index/cursor is not a store cell),
-   functions and Gib, Text and lists, and the step from these structured instruction trees to basic blocks beyond
-   the construct-level theorems above. *)
+   assignments with implicit numeric conversion, Wenn, all five loop forms - Solange, Mache..Solange, Wiederhole,
+   the counting loop `Fuer jede Zahl/Byte/Kommazahl x von a bis b (mit Schrittgroesse s)` in both directions with its
+   conversions, and for-each over a list literal of scalars or a Text literal (with the optional index variable) -,
+   break/continue, blocks, expression statements, Schreibe of scalars): whenever RefSem ends (normally or with a
+   Laufzeitfehler) within the fuel, the compiled block run with the same fuel ends the same way with the same
+   output bytes.  The machine keeps the counter / step / element sequence of a counting or for-each loop outside
+   the variable cells (parameters of mfor_i / mfor_k / meach), as the generated code keeps them in registers; only
+   the loop variable and the index variable are cells.
+   NOT covered (the full `program_preservation : wt p -> run (compile p) = exec p` stays open): user functions and
+   Gib (a call inside an expression makes expressions effectful: eval_sim's "state unchanged" clause and the pure
+   lir_eval would both have to become state-passing), Text and list VALUES in variables (for-each iterates over
+   literals only), and the step from these structured instruction trees to basic blocks beyond the construct-level
+   theorems above. *)
 Theorem C01_program_preservation_scalar :
   forall (pow : Z -> Z -> Z) (log10 : Z -> Z) (fmt_float : Z -> list Z) (ftab : list fdecl)
          (fuel : nat) (ss : list stmt) (o : bool * list Z),
@@ -357,4 +362,18 @@ Example C01_program_nonvacuous :
   block_ok (fun _ => None) false p = true /\
   observe (exec_block (fun _ _ => 0) (fun _ => 0) (fun _ => []) [] 40 [] [] init_state p) = Some (false, [48; 49; 50]) /\
   m_observe (mblock (fun _ _ => 0) (fun _ => 0) (fun _ => []) 40 [] init_mstate (map compile_stmt p)) = Some (false, [48; 49; 50]).
+Proof. repeat split; vm_compute; reflexivity. Qed.
+
+(* Fuer jede Zahl i von 3 bis 1 mit Schrittgroesse -1: Schreibe i.   Fuer jede Kommazahl k von 1 bis 2 (Byte-Grenze):
+   Schreibe (k als Zahl).   Fuer jeden Buchstaben c (Index j) in "ab": Schreibe j.   Fuer jede Zahl e in [7; 8]: wenn e = 8 verlasse.
+   -> "321" "12" "12" "" *)
+Example C01_program_loops_nonvacuous :
+  let p := [SFor TZahl 1%N (EInt 3) (EInt 1) (Some (EUn UNeg (EInt 1))) [SPrint (EVar 1%N)];
+            SFor TKomma 2%N (EInt 1) (ECast (EInt 2) TByte) None [SPrint (ECast (EVar 2%N) TZahl)];
+            SForEach TChar 3%N (Some 4%N) (EText [97; 98]) [SPrint (EVar 4%N)];
+            SForEach TZahl 5%N None (EListLit [EInt 7; EInt 8])
+                     [SIf (EBin BEq (EVar 5%N) (EInt 8)) [SBreak] []]] in
+  block_ok (fun _ => None) false p = true /\
+  observe (exec_block (fun _ _ => 0) (fun _ => 0) (fun _ => []) [] 40 [] [] init_state p) = Some (false, [51; 50; 49; 49; 50; 49; 50]) /\
+  m_observe (mblock (fun _ _ => 0) (fun _ => 0) (fun _ => []) 40 [] init_mstate (map compile_stmt p)) = Some (false, [51; 50; 49; 49; 50; 49; 50]).
 Proof. repeat split; vm_compute; reflexivity. Qed.
